@@ -64,6 +64,10 @@ def mutation_points(F, cg, b, mgr=None):
                     muts.append((c.bb, c.line, "%s on self.%s" % (name, fs[0])))
                 elif name in NAV:
                     handles.append(c)
+            elif fs and fs[0] in ("free_node_ids", "free_edge_ids") and name in ("push", "extend", "insert"):
+                # handing an id back to the allocator is not bookkeeping when the call then fails:
+                # the id of an entity that is not (or no longer) live gets allocated twice
+                muts.append((c.bb, c.line, "%s on self.%s" % (name, fs[0])))
     if handles:
         derived = b.forward_taint({h.dest[0] for h in handles}, through_calls=lambda c, ix: c.path.rsplit("::", 1)[-1] in THRU)
         for i, j, pl, rv, line, exp in b.stmts():
@@ -87,14 +91,106 @@ def error_exits(b):
     return out
 
 
-def errors_after_mutation(b, muts, errs):
-    """pairs (mutation, error exit) with a CFG path mutation -> error exit"""
+def _none_exits_precede_mutation(F, cg, callee, _memo={}):
+    """The local callee returns Option and every `None` it returns is decided before its first mutation point:
+    its None then means 'nothing there, nothing changed'."""
+    if callee in _memo:
+        return _memo[callee]
+    _memo[callee] = False
+    r = F.fns.get(callee)
+    m = F.mir(callee) if r else None
+    if not m or "Option<" not in r["sig"].rsplit("->", 1)[-1]:
+        return False
+    from .cfg import Body
+    cb = Body(m, r)
+    muts = mutation_points(F, cg, cb)
+    nones = [(i, line, "None") for i, j, pl, rv, line, exp in cb.stmts() if pl[0] == 0 and rv[0] == "agg" and rv[1].endswith("Option::None")]
+    nones += [(c.bb, c.line, "?") for c in cb.calls() if c.path.endswith("from_residual")]
+    ok = not errors_after_mutation(cb, muts, nones)
+    _memo[callee] = ok
+    return ok
+
+
+def _manager_errors_precede_write(F, callee, _memo={}):
+    """A write-locking manager method returning Result fails only before it takes its write lock."""
+    if callee in _memo:
+        return _memo[callee]
+    _memo[callee] = False
+    r = F.fns.get(callee)
+    m = F.mir(callee) if r else None
+    if not m or "Result<" not in r["sig"].rsplit("->", 1)[-1]:
+        return False
+    from .cfg import Body
+    cb = Body(m, r)
+    locks = [c for c in cb.calls() if "RwLock" in c.path and c.path.endswith("::write")]
+    errs = error_exits(cb)
+    ok = True
+    for lk in locks:
+        after = cb.reachable(lk.target) if lk.target is not None else set()
+        if any(eb in after for eb, el, ew in errs):
+            ok = False
+    _memo[callee] = ok and bool(locks)
+    return _memo[callee]
+
+
+def _some_side(b, call):
+    """target block of the Some side of the first switch on the discriminant of an Option-returning call (through `?`)"""
+    derived = b.forward_taint({call.dest[0]}, through_calls=lambda c, ix: c.path.rsplit("::", 1)[-1] in ("branch", "ok_or", "ok_or_else", "map_err", "map"))
+    for i in sorted(b.reachable(call.bb)):
+        t = b.blocks[i]["t"]
+        if t[0] != "switch" or t[1][0] == "k":
+            continue
+        ds = b.defs().get(t[1][1][0], [])
+        if len(ds) == 1 and ds[0][0] == "stmt" and ds[0][4][0] == "discr" and ds[0][4][1][0] in derived:
+            ty = b.local_ty(ds[0][4][1][0])
+            if ty.startswith("std::option::Option<"):
+                one = [tgt for v, tgt in t[2] if v == "1"]
+                return i, (one[0] if one else t[3])
+            if ty.startswith("std::ops::ControlFlow<") or ty.startswith("std::result::Result<"):
+                zero = [tgt for v, tgt in t[2] if v == "0"]
+                return i, (zero[0] if zero else t[3])
+    return None
+
+
+def errors_after_mutation(b, muts, errs, F=None, cg=None):
+    """pairs (mutation, error exit) with a CFG path mutation -> error exit.  With F/cg given, a mutating call of a
+    local Option-returning helper whose None results all precede its own mutations only counts on its Some side."""
     bad = []
+    calls_by_bb = {c.bb: c for c in b.calls()} if F is not None else {}
     for (mb, ml, mw) in muts:
         reach = set()
+        c = calls_by_bb.get(mb)
+        side = None
+        if c is not None and c.path in F.fns and mw.startswith("calls ") and (_none_exits_precede_mutation(F, cg, c.path) or _manager_errors_precede_write(F, c.path)):
+            side = _some_side(b, c)
+        if side is not None:
+            reach = b.reachable(side[1], avoid={side[0]})
+            for (eb, el, ew) in errs:
+                if eb in reach:
+                    bad.append(((mb, ml, mw), (eb, el, ew)))
+            continue
         for s in b.succ(mb):
             reach |= b.reachable(s)
         for (eb, el, ew) in errs:
             if eb in reach or (eb == mb and el > ml):
                 bad.append(((mb, ml, mw), (eb, el, ew)))
     return bad
+
+
+def store_mutating_calls(F, cg, b, mgr=None):
+    """Calls in an operator body (or any body that holds `&mut GraphStore` as a parameter) that change the store:
+    write-locking index-manager methods and GraphStore methods with a `&mut` receiver whose transitive field
+    writes include a view field."""
+    mgr = mgr if mgr is not None else manager_writers(F)
+    out = []
+    for c in b.calls():
+        if c.path in mgr:
+            out.append((c.bb, c.line, "calls %s" % c.path.rsplit("::", 1)[-1]))
+            continue
+        r = F.fns.get(c.path)
+        if r and r.get("self") == GS and not r.get("trait") and c.args and c.args[0][0] != "k" and _is_mut_ref(b.local_ty(c.args[0][1][0])):
+            w = cg.transitive_effects(c.path, "w")
+            wf = {f[len(GS) + 1:] for f in w if f.startswith(GS + ".")}
+            if wf - sm.BOOKKEEPING or any(x in mgr for x in cg.reach([c.path])):
+                out.append((c.bb, c.line, "calls %s" % c.path.rsplit("::", 1)[-1]))
+    return out
